@@ -1,50 +1,12 @@
-(* Line / column bookkeeping of StreamBuffer and the marks carried by TokenizeError.
-   Spec: the line of index p is the number of recognised line breaks before p (LF, NEL, LS, PS,
-   and a CR that is not followed by LF), the column is the number of characters other than the
-   byte order mark between the last such break and p.  Theorem: StreamBuffer.forward keeps
-   exactly this bookkeeping, so get_position() at index p is (p, line_of p, col_of p).
-   TokenizeError.clone adds the offsets to line and column and keeps the index. *)
+(* Proofs about the line / column bookkeeping defined in OptMarksDef.v. *)
 From Coq Require Import List NArith Bool Lia ZifyBool Arith.
 From MV Require Import Base.PyStr.
 From MV Require Import Base.Res.
 From MV Require Import Gen.OptConsts.
 From MV Require Import Opt.OptModel.
+From MV Require Export Opt.OptMarksDef.
 Import ListNotations.
 Open Scope N_scope.
-
-(* ---------- specification on the buffer B = text ++ sentinel ---------- *)
-
-Definition LINE_BREAKS : list N := [10; 133; 8232; 8233].
-
-(* is the character at position i a line break for the bookkeeping *)
-Definition brk (B : str) (i : nat) : bool :=
-  match nth_error B i with
-  | Some ch =>
-      mem_N ch LINE_BREAKS ||
-      ((ch =? 13) && match nth_error B (S i) with Some n => negb (n =? 10) | None => true end)
-  | None => false
-  end.
-
-Definition counts (B : str) (i : nat) : bool :=     (* contributes to the column *)
-  match nth_error B i with Some ch => negb (ch =? 65279) | None => false end.
-
-Definition line_of (B : str) (p : nat) : N := N.of_nat (length (filter (brk B) (seq 0 p))).
-
-(* start of the line that contains position p *)
-Fixpoint line_start (B : str) (p : nat) : nat :=
-  match p with
-  | O => O
-  | S p' => if brk B p' then S p' else line_start B p'
-  end.
-
-Definition col_of (B : str) (p : nat) : N :=
-  let st := line_start B p in N.of_nat (length (filter (counts B) (seq st (p - st)))).
-
-(* what a TokenizeError raised at index p reports when options_to_items is called with offsets:
-   _to_tokens re-raises exc.clone(line_offset, column_offset) (no change when both are 0) *)
-Definition error_mark (text : str) (line_offset column_offset : N) (p : nat) : N * N * N :=
-  let B := text ++ CHARS_END in
-  (N.of_nat p, line_of B p + line_offset, col_of B p + column_offset).
 
 (* ---------- the implementation keeps this bookkeeping ---------- *)
 
